@@ -51,18 +51,21 @@ Fixpoint drop_negzero (v : tval) : tval :=
   | _ => v
   end.
 Definition lex_negzero (l : list Z) : bool := zlist_eqb l [45; 48].
-Fixpoint json_has_negzero (j : json) : bool :=
+(* [instr]: a double under api.js_conv (value mapping on) is written as a quoted number, so "-0" inside a string counts too *)
+Fixpoint json_has_negzero (instr : bool) (j : json) : bool :=
   match j with
   | JNum l => lex_negzero l
-  | JArr xs => existsb json_has_negzero xs
-  | JObj ms => existsb (fun m => json_has_negzero (snd m)) ms
+  | JStr l => instr && lex_negzero l
+  | JArr xs => existsb (json_has_negzero instr) xs
+  | JObj ms => existsb (fun m => json_has_negzero instr (snd m)) ms
   | _ => false
   end.
-Fixpoint json_drop_negzero (j : json) : json :=
+Fixpoint json_drop_negzero (instr : bool) (j : json) : json :=
   match j with
   | JNum l => JNum (if lex_negzero l then [48] else l)
-  | JArr xs => JArr (map json_drop_negzero xs)
-  | JObj ms => JObj (map (fun m => (fst m, json_drop_negzero (snd m))) ms)
+  | JStr l => JStr (if instr && lex_negzero l then [48] else l)
+  | JArr xs => JArr (map (json_drop_negzero instr) xs)
+  | JObj ms => JObj (map (fun m => (fst m, json_drop_negzero instr (snd m))) ms)
   | _ => j
   end.
 
@@ -114,7 +117,7 @@ Definition check_1301 (fs : list field) : verdict :=
           (if alias_split way D0 && loses_required D t mj then VKnown 1301 else VBad 2 [FB b])
         else if bytes_eqb b2 b then VOk
         else if has_negzero v && bytes_eqb b2 (encode (drop_negzero v)) then VKnown 1302
-        else if alias_split way D0 && res_is mj [] b2 then VKnown 1301
+        else if alias_split way D0 && (res_is mj [] b2 || res_is (j2t_text (mkPolicy num_code false (J2T.o_vm o')) D o' t J) [] b2) then VKnown 1301
         else if J2T.o_vm o' && has_i16_vm D && res_is (j2t_text code_vm_quirks D o' t J) [] b2 then VKnown 1303
         else VBad 3 [FB b]
       | _ => VBad 90 []        (* contradicts theorem t2j_j2t_id_ast: a defect of the model *)
@@ -131,7 +134,7 @@ Definition check_1302 (fs : list field) : verdict :=
     | None => VDrift 10                                             (* t2j returned text that is not JSON: C03's business *)
     | Some j =>
       if negb (json_utf8 j) then VSkip else
-      let nz := json_has_negzero j in
+      let nz := json_has_negzero (J2T.o_vm o') j in
       let P0 := if nz then num_drift else num_strict in
       let mj := j2t_text (mkPolicy P0 false false) D o' t J in
       match mj with
@@ -148,7 +151,7 @@ Definition check_1302 (fs : list field) : verdict :=
           if json_same j j2 then VOk
           else if q208 then VKnown 1303
           else if alias_split way D0 && bytes_eqb b2 mb then VKnown 1301
-          else if nz && json_same (json_drop_negzero j) j2 then VKnown 1302
+          else if nz && json_same (json_drop_negzero (J2T.o_vm o') j) j2 then VKnown 1302
           else VBad 14 [FB J]
         end
       end
